@@ -24,7 +24,7 @@ PROPS = {
     "C03": {"level": "exploration", "engines": "S", "quick": {"cases": 1500, "secs": 45, "shrink_secs": 10}, "thorough": DEFAULT_T, "rule": GEN_RULE + "; price histories are tree-shaped (a unique derivation per commodity and day), sparse or daily, direct, inverse and chained; a fifth of the journals leave a commodity without a price before its first use",
             "assumptions": ["tolerance per cell: 1e-8 per truncating step that contributes (postings plus revaluation days)", "windows start at the first booking and --close=false (with a later --from the report shows changes only, which the statement's 'positions' does not describe)", "-m rules match asset/liability accounts only"]},
     "C20": {"level": "exploration", "engines": "S", "quick": {"cases": 1500, "secs": 45, "shrink_secs": 10}, "thorough": DEFAULT_T, "rule": GEN_RULE + "; sub-checks: weights (and weights with a universe file and -m mappings) against balance -v -s . on the same partition; returns prints one line per period of that partition; closed-form journals: constant prices with external flows only (0.0%), initial purchases followed by price changes only (end/start - 1)",
-            "assumptions": ["weights are compared to 1e-6, returns to the printed precision (0.06 percentage points)", "--last is not combined with the closed-form return checks (the first shown period would include earlier days)", "weights are compared with the balance on windows that start at the first booking: with a later --from balance -v shows changes inside the window, not holdings"]},
+            "assumptions": ["weights are compared to 1e-6, returns to the printed precision (0.06 percentage points)", "weights are compared with the balance on windows that start at the first booking: with a later --from balance -v shows changes inside the window, not holdings"]},
     "C16": {"level": "exploration", "engines": "S", "quick": {"cases": 1500, "secs": 45, "shrink_secs": 10}, "thorough": DEFAULT_T, "rule": GEN_RULE + "; tree-shaped price histories, every (ASCII-named) valuation commodity",
             "assumptions": ["commodity names are ASCII letters (transcode rewrites other characters for beancount)"]},
     "C15": {"level": "exploration", "engines": "S", "quick": {"cases": 1500, "secs": 45, "shrink_secs": 10}, "thorough": DEFAULT_T,
